@@ -2623,7 +2623,7 @@ fn main() {
         while start < n {
             let end = (start + chunk).min(n);
             let args2 = args.clone();
-            let ok = bounded_section(&mut r, "vt", Duration::from_secs(if cfg!(miri) { 1400 } else { 120 }), move |r| {
+            let ok = bounded_section(&mut r, "vt", Duration::from_secs(if cfg!(miri) { 1400 } else { 75 }), move |r| {
                 par_cases(r, &args2, end - start, |i, r| vt_case(r, seed, start + i));
             });
             if !ok {
